@@ -25,6 +25,17 @@ def run(ck):
     r = vlib.vh_json(["run-if-accepted", src], timeout=1800)
     absorb(ck, r, "accepted-then-run")
     ck.note("boundary_programs", r["extra"])
+    # input points of every value type a host can put into a field (not only the documented ones): the builtin and extraction
+    # programs, each on its point with every field holding each of the host values
+    hp = os.path.join(d, "hostpoints.ndjson")
+    hprogs = [p for p in gen.gen_builtins(True, ck.seed) + gen.gen_extract(True, ck.seed) + gen.gen_hostile(True, ck.seed) if not p.get("v2")]
+    gen.write(hp, hprogs)
+    r = vlib.vh_json(["host-typed-points", hp] + (["-every", "4"] if q else []), timeout=2400)
+    absorb(ck, r, "host-typed-points")
+    ck.note("host_typed_points", r["extra"])
     ck.cov["rule"] += (" In addition every program of the load-time checking family (offenders and valid constructs in every position, both "
                        "interpreters) is offered to the real loader and, if the loader accepts it, run under the panic guard: a script "
-                       "the loader lets through must not crash the host either.")
+                       "the loader lets through must not crash the host either. "
+                       "Finally the builtin, extraction and hostile-operand programs run on input points whose fields hold Go values of every kind a "
+                       "host could supply (all integer widths, float32, []byte, slices, maps, time, structs, nil pointers, functions, "
+                       "channels, NaN, invalid UTF-8, long strings): no panic, no hang.")
